@@ -6,12 +6,11 @@
 -/
 import XotModel.Lemmas.CompareCanon
 import XotModel.Lemmas.IdMap
+import XotModel.Lemmas.SharedDefs
 
 namespace XotModel
 
-/-- `(namespace URI, local name)` of a name id: `namespace_str(namespace_for_name(n))`,
-    `local_name_str(n)`. -/
-def Env.expanded (e : Env) (n : Nat) : Str × Str := (e.namespaceStr (e.nsOfName n), e.localName n)
+-- `Env.expanded` (`(namespace URI, local name)` of a name id) is in `Lemmas/SharedDefs.lean`.
 
 /-- Canonical value with every id resolved to its string(s). -/
 inductive SValue where
